@@ -347,6 +347,7 @@ type Ctx struct {
 	nbound   int
 	specDepth int
 	epochs   int
+	axiomSet map[string]bool
 }
 
 func (c *Ctx) refuse(f string, a ...interface{}) {
@@ -458,6 +459,16 @@ func (c *Ctx) assert(kind, label string, goal Term, src string, serves []string)
 	if goal.B != nil && *goal.B {
 		return
 	}
+	if len(goal.Conj) > 1 {
+		// one obligation per conjunct: smaller queries, sharper diagnosis
+		flat := flattenConj(goal)
+		if len(flat) > 1 {
+			for i, g := range flat {
+				c.assert(kind, fmt.Sprintf("%s.%d", label, i+1), g, src, serves)
+			}
+			return
+		}
+	}
 	base := c.FuncName + "/" + kind
 	if label != "" {
 		base += "(" + label + ")"
@@ -483,6 +494,17 @@ func (c *Ctx) assert(kind, label string, goal Term, src string, serves []string)
 		c.obls = append(c.obls, o)
 	}
 	c.assume(goal)
+}
+
+func flattenConj(t Term) []Term {
+	if len(t.Conj) == 0 {
+		return []Term{t}
+	}
+	var out []Term
+	for _, x := range t.Conj {
+		out = append(out, flattenConj(x)...)
+	}
+	return out
 }
 
 func uniq(ss []string) []string {
@@ -578,7 +600,13 @@ func (c *Ctx) load(heap map[string]Term, base string, path []Term, t types.Type,
 	case TSlice:
 		v := &Val{K: VSlice, Typ: t}
 		v.Arr = selPath(get(base+"$arr", nestedArr(d, SInt)), path)
-		v.Off = selPath(get(base+"$off", nestedArr(d, SInt)), path)
+		if strings.HasPrefix(base, "fld$") || strings.HasPrefix(base, "arr$") {
+			// A-OFF0: slices kept in struct fields or as slice elements start at offset 0 of their backing
+			// array (an obligation at every such store under contract)
+			v.Off = IntLit(0)
+		} else {
+			v.Off = selPath(get(base+"$off", nestedArr(d, SInt)), path)
+		}
 		v.Len = selPath(get(base+"$len", nestedArr(d, SInt)), path)
 		v.Cap = selPath(get(base+"$cap", nestedArr(d, SInt)), path)
 		return v
@@ -613,7 +641,11 @@ func (c *Ctx) store(base string, path []Term, t types.Type, v *Val, ints, floats
 			c.refuse("storing non-slice into slice location %s", base)
 		}
 		put(base+"$arr", SInt, v.Arr)
-		put(base+"$off", SInt, v.Off)
+		if strings.HasPrefix(base, "fld$") || strings.HasPrefix(base, "arr$") {
+			c.assert("offset0", "", Eq(v.Off, IntLit(0)), "slices stored in fields or as elements start at offset 0 of their array (A-OFF0)", nil)
+		} else {
+			put(base+"$off", SInt, v.Off)
+		}
 		put(base+"$len", SInt, v.Len)
 		put(base+"$cap", SInt, v.Cap)
 		return
